@@ -58,9 +58,12 @@ CORRUPTIONS = (
     ("flip_version_hi", True),  # byte 3 of the version field
     ("flip_digest", True),  # byte 10: map digest
     ("flip_optdigest", True),  # byte 70: options digest
-    ("flip_gzip_magic", False),  # byte 76: first byte of the payload
-    ("flip_payload_mid", False),  # middle of the payload
-    ("flip_payload_tail", False),  # last byte (gzip ISIZE trailer)
+    # payload damage with a position-independent meaning (the deflate stream itself differs
+    # from run to run -- the pickle contains cached id()-based hashes -- so damage *inside*
+    # the stream is enumerated separately, by the byte sweep of checks/c20.py)
+    ("flip_gzip_magic", False),  # byte 76: first byte of the payload (gzip magic)
+    ("flip_gzip_crc", False),  # byte n-8: CRC32 of the gzip trailer
+    ("flip_gzip_isize", False),  # byte n-1: ISIZE of the gzip trailer
 )
 OTHER = ("delete",)
 
@@ -188,8 +191,8 @@ def apply_corruption(op, data):
         return inc(70)
     if op == "flip_gzip_magic":
         return inc(HEADER)
-    if op == "flip_payload_mid":
-        return inc(HEADER + (n - HEADER) // 2) if n > HEADER + 20 else None
-    if op == "flip_payload_tail":
+    if op == "flip_gzip_crc":
+        return inc(n - 8) if n > HEADER + 20 else None
+    if op == "flip_gzip_isize":
         return inc(n - 1) if n > HEADER + 20 else None
     raise KeyError(op)
